@@ -1,12 +1,12 @@
 #!/bin/sh
 # seedrun.sh <Cxx> <k> <check ids...> : confirm a seeded change from /tmp/seeds/Cxx/seed_k in the scratch
-# worktree /tmp/wt/own, run the given checks against it, and import it as /verif/seeded/Cxx-k
+# worktree ${SEED_WT:-/tmp/wt/own}, run the given checks against it, and import it as /verif/seeded/Cxx-k
 set -e
 here="$(cd "$(dirname "$0")/.." && pwd)"
 p=$1; k=$2; shift 2
 src=/tmp/seeds/$p/seed_$k
-git -C /tmp/wt/own checkout -q -- . 
-/venv/bin/python "$here/harness/seedtest.py" "$src" /tmp/wt/own "$@" > "$src/result.json"
+git -C ${SEED_WT:-/tmp/wt/own} checkout -q -- . 
+/venv/bin/python "$here/harness/seedtest.py" "$src" ${SEED_WT:-/tmp/wt/own} "$@" > "$src/result.json"
 /venv/bin/python "$here/harness/seedimport.py" "$src" "$p-$k" "$src/result.json"
 # the translators rewrote lean/DinoGen from the seeded worktree: restore the committed (unchanged-tree) copies
 git -C "$here" checkout -q -- lean/DinoGen
